@@ -251,6 +251,7 @@ def run(ctx, prog):
                 regnames = [r['name'] for r in regs]
                 regmap = {r['name']: '.'.join(r['path'][1:]) for r in regs if r['name'] is not None and r['path'] and r['path'][0] == 'this'}
                 E = terms.Evaluator(prog, dyn_class=cls, scalar=scalar, regmap=regmap, opaque=('register_var', 'register_vec'))
+                E.vecmodel = True
                 outs = E.run(iv)
                 setnames = [c[0] for c in E.trace.setvar_calls if c[2] == 'set_var']
                 for r in regs:
@@ -284,38 +285,47 @@ def run(ctx, prog):
                            'init_var sets "%s" which %s never registers (set_var fails, init_param != 0)' % (nm, short), nontrivial=False)
                 dup = set(n for n in regnames if n is not None and regnames.count(n) > 1)
                 ctx.ob('C14.K4', '%s|distinct-names|%s' % (short, sc), not dup, ctor.where, 'names registered twice: %s' % sorted(dup), sample='%d names' % len(regnames))
-                # vectors
+                # vectors: every path of init_var leaves each registered vector with a known positive length and every
+                # element stored during this very call (concrete vector model of sa/terms.py); when the length is not a
+                # constant the syntactic fill-loop rule decides, and an idiom neither recognises is inconclusive
                 for r in regs:
                     if r['kind'] != 'vec':
                         continue
                     vpath = '.'.join(r['path'][1:]) if r['path'] else None
-                    filled = False
-                    for (pth, meth, args, loc) in E.trace.obj_calls:
-                        if pth != vpath:
-                            continue
-                        if meth == 'resize' and args:
-                            a0 = args[0]
-                            if a0[0] == 'call' and a0[1] == 'trunc':
-                                a0 = a0[2][0]
-                            pv = nf.nf(a0)
-                            sv = nf.as_single(pv)
-                            filled = filled or (sv is not None and sv[1] == () and sv[0] > 0)
-                        elif meth in ('push_back', 'assign'):
-                            filled = True
-                    for c in E.trace.setvar_calls:
-                        if c[2] == 'set_vec' and c[0] == r['name']:
-                            filled = True
+                    finals = [o.mem.get(vpath) for o in outs] if vpath else []
+                    modelled = bool(finals) and all(v is not None and v[0] == 'cvec' for v in finals)
+                    if modelled:
+                        filled = all(len(v[1]) > 0 for v in finals)
+                        stale = sorted(set(i_ for v in finals for i_, x in enumerate(v[1]) if x is None))
+                        nonconst = [terms.fmt(x)[:40] for v in finals for x in v[1] if x is not None and (terms.has_unk(x) or [y for y in terms.syms(x) if y != 'pi' and not y.startswith('const:')])]
+                        okc = not stale and not nonconst
+                        whyc = ('elements %s keep their previous value' % stale[:6]) if stale else ('element value %s is not a constant' % nonconst[:1])
+                    else:
+                        filled = False
+                        for (pth, meth, args, loc) in E.trace.obj_calls:
+                            if pth != vpath:
+                                continue
+                            if meth == 'resize' and args:
+                                a0 = args[0]
+                                if a0[0] == 'call' and a0[1] == 'trunc':
+                                    a0 = a0[2][0]
+                                pv = nf.nf(a0)
+                                sv = nf.as_single(pv)
+                                filled = filled or (sv is not None and sv[1] == () and sv[0] > 0)
+                            elif meth in ('push_back', 'assign'):
+                                filled = True
+                        for c in E.trace.setvar_calls:
+                            if c[2] == 'set_vec' and c[0] == r['name']:
+                                filled = True
+                        touched = any(pth == vpath for (pth, meth, args, loc) in E.trace.obj_calls) or vpath in E.trace.writes
+                        okc, whyc = vector_overwritten(iv, r['path'][-1] if r['path'] else None, ())
+                        if not okc and touched:
+                            okc = None      # written by an idiom outside both models: not decided
+                            whyc = 'idiom not recognised (%s)' % whyc
+                        if not filled and touched and any(v is not None and v[0] != 'cvec' for v in finals):
+                            filled = None
                     ctx.ob('C14.K4', '%s|vector-default|%s|%s' % (short, r['name'], sc), filled, r['node'].get('l'),
                            'vector "%s" of %s is registered but init_var leaves it empty' % (r['name'], short), sample='%s.%s resized' % (short, r['name']))
-                    nvals = []
-                    for (pth, meth, args, loc) in E.trace.obj_calls:
-                        if pth == vpath and meth == 'resize' and args:
-                            a0 = args[0]
-                            if a0[0] == 'call' and a0[1] == 'trunc':
-                                a0 = a0[2][0]
-                            sv = nf.as_single(nf.nf(a0))
-                            nvals.append(int(sv[0]) if sv is not None and sv[1] == () and sv[0].denominator == 1 else None)
-                    okc, whyc = vector_overwritten(iv, r['path'][-1] if r['path'] else None, tuple(nvals))
                     ctx.ob('C14.K4', '%s|vector-overwritten|%s|%s' % (short, r['name'], sc), okc, r['node'].get('l'),
                            'init_var of %s does not redefine every element of "%s" (%s): masa_init_param would keep values set through masa_set_vec' % (short, r['name'], whyc),
                            sample='%s.%s: every element reassigned after resize' % (short, r['name']))
